@@ -32,6 +32,7 @@ def run(model, rep, tier):
     # raise there on its own data (shared with C04.R15)
     from . import c04 as _c04
     _c04.r15_integer_format_of_float(ctx, rep, 'C01.R9')
+    r11_who_may_change_the_map(ctx, rep)
     from . import robust
     robust.layers_not_truth_tested(ctx, rep, 'C01.R10')
     robust.asserts_have_no_effects(ctx, rep, 'C01.R20', 'C01')
@@ -654,3 +655,86 @@ def r6_final_teardown(ctx, rep, R='C01.R6'):
               path=g.describe_path(g.path([g.entry], g.exit, avoid=set(finals), include_start=True,
                                           edge_ok=edge_ok) or []))
     rep.floor(R, len(finals), 1, 'final tear-down sites')
+
+
+def r11_who_may_change_the_map(ctx, rep, R='C01.R11'):
+    """The map of layers that are set up is the runner's belief about the process.  It is created once
+    per run (Runner.run_tests), gains a layer only in setup_layer (after setUp returned: R2) and loses
+    one only in tear_down_unneeded (after tearDown was attempted: R3).  Any other function that holds
+    the map -- found by following it through resolved calls from where it is created -- only reads
+    it; a removal elsewhere (the -j branch of the layer loop 'tidying' the placeholder layer, which
+    in a child is the layer it has just run) makes the final tear-down skip a layer that is up."""
+    rep.rule(R, 'who may change the map of set-up layers: followed from its creation in Runner.run_tests '
+             'through every resolved call it is handed to, it is bound once (an empty dict), gains entries '
+             'only in runner.setup_layer and loses entries only in runner.tear_down_unneeded; every other '
+             'holder only reads it')
+    m = ctx.model
+    root = m.func('runner.Runner.run_tests')
+    # the local bound to an empty dict that is handed to tear_down_unneeded
+    cands = [x.targets[0].id for x in ast.walk(root.node) if isinstance(x, ast.Assign) and
+             len(x.targets) == 1 and isinstance(x.targets[0], ast.Name) and
+             isinstance(x.value, (ast.Dict, ast.Call)) and norm(x.value) in ('{}', 'dict()')]
+    handed = set()
+    for c in own_calls(root.node):
+        if call_name(c) == 'tear_down_unneeded':
+            handed |= {a.id for a in c.args if isinstance(a, ast.Name)}
+    M0 = [x for x in cands if x in handed]
+    if len(M0) != 1:
+        rep.undecide(R, 'Runner.run_tests: the map of set-up layers was not identified (an empty dict handed '
+                     'to tear_down_unneeded): %s' % M0, where=ctx.where(root, root.node))
+        return
+    holders = {root.qualname: M0[0]}
+    work = [root]
+    while work:
+        fi = work.pop()
+        nm = holders[fi.qualname]
+        for c in own_calls(fi.node):
+            try:
+                r = ctx.cg.resolve_call(c, fi)
+            except Exception:
+                r = None
+            if not isinstance(r, list) or len(r) != 1:
+                continue
+            t = r[0]
+            ps = [a.arg for a in t.node.args.posonlyargs + t.node.args.args]
+            for i, a in enumerate(c.args):
+                if is_name(a, nm) and i < len(ps) and t.qualname not in holders:
+                    holders[t.qualname] = ps[i]
+                    work.append(t)
+            for k in c.keywords:
+                if k.arg and is_name(k.value, nm) and t.qualname not in holders:
+                    holders[t.qualname] = k.arg
+                    work.append(t)
+    ADD_OK = ('runner.setup_layer',)
+    DEL_OK = ('runner.tear_down_unneeded',)
+    n = 0
+    for q, nm in sorted(holders.items()):
+        fi = m.func(q)
+        for x in ast.walk(fi.node):
+            kind = None
+            if isinstance(x, ast.Delete) and any(isinstance(t, ast.Subscript) and is_name(t.value, nm) for t in x.targets):
+                kind = 'del'
+            elif isinstance(x, ast.Call) and isinstance(x.func, ast.Attribute) and is_name(x.func.value, nm) and \
+                    x.func.attr in ('pop', 'popitem', 'clear'):
+                kind = 'del'
+            elif isinstance(x, ast.Call) and isinstance(x.func, ast.Attribute) and is_name(x.func.value, nm) and \
+                    x.func.attr in ('update', 'setdefault', '__setitem__'):
+                kind = 'add'
+            elif isinstance(x, (ast.Assign, ast.AugAssign)):
+                for t in (x.targets if isinstance(x, ast.Assign) else [x.target]):
+                    if isinstance(t, ast.Subscript) and is_name(t.value, nm):
+                        kind = 'add'
+                    elif is_name(t, nm) and not (q == root.qualname and isinstance(x, ast.Assign) and
+                                                 norm(x.value) in ('{}', 'dict()')):
+                        kind = 'rebind'
+            if kind is None:
+                continue
+            n += 1
+            ok = (kind == 'add' and q in ADD_OK) or (kind == 'del' and q in DEL_OK)
+            rep.check(ok, R, '%s: %s (%s) is allowed here' % (q, norm(x)[:50], kind),
+                      '%s changes the map of set-up layers (%s: %s): only setup_layer may add and only '
+                      'tear_down_unneeded may remove; a layer forgotten elsewhere is still up but is '
+                      'never torn down, one added elsewhere was never set up' % (q, kind, norm(x)[:60]),
+                      key='map-change:%s:%s' % (q, kind), func=q, where=ctx.where(fi, x))
+    rep.floor(R, len(holders), 4, 'functions holding the map of set-up layers')
+    rep.floor(R, n, 2, 'changes of the map')
